@@ -137,6 +137,7 @@ def run(ctx):
                          for f in ("a1.out", "twocus", "dwz-partial", "dwz-partial2-1", "dwz-partial3-1", "dwz-partial4-1.o",
                                    "haschildren_childless", "empty")])
         samples = sorted(set(s for s in samples if os.path.exists(s)))
+        samples = samples + [cp for cp, _ in dwcorr.compiler_objects(fs.dir, 4 if ctx.tier == "quick" else None)]   # compiled on the spot
         pri = [s for s in samples if "dwz" in s or "twocus" in s or "nullptr" in s]
         samples = pri + [s for s in samples if s not in pri]
         if ctx.tier == "quick":
